@@ -72,6 +72,11 @@ impl PrintStyles {
       ret.push('\n');
       write!(ret, "{}", self.matched.paint(line))?;
     }
+    // `lines()` swallows a trailing line terminator: keep it, otherwise the text after the
+    // match is glued onto its last line and the following lines are numbered one too low
+    if matched.ends_with('\n') {
+      ret.push('\n');
+    }
     Ok(())
   }
 
